@@ -1,7 +1,9 @@
 package chaingen
 
 import (
+	"bytes"
 	"fmt"
+	"time"
 
 	"go.sia.tech/core/types"
 	"verif/harness/internal/rng"
@@ -257,6 +259,50 @@ func (b *Builder) AddTxW(r *rng.R, kind string) bool {
 			return b.addV2(kind, parent, child)
 		}
 		return false
+	case "w-foundation-update":
+		// a foundation address update signed by the current foundation key (the wallet's or the other
+		// party's): the address passes from one to the other
+		owner, newAddr := b.Env.Addr, oaddr
+		switch cs.FoundationManagementAddress {
+		case b.Env.Addr:
+		case oaddr:
+			owner, newAddr = oaddr, b.Env.Addr
+		default:
+			return false
+		}
+		ins := b.spendableOf(owner, types.Siacoins(10))
+		if len(ins) == 0 {
+			return false
+		}
+		in := ins[r.Intn(len(ins))]
+		fee := types.Siacoins(1)
+		outs := []types.SiacoinOutput{{Address: owner, Value: in.SiacoinOutput.Value.Sub(fee)}}
+		if b.v1Allowed() && (!b.v2Allowed() || r.Bool()) {
+			uc := b.Env.UC
+			others := map[types.Hash256]bool{}
+			if owner == oaddr {
+				uc = ouc
+				others[types.Hash256(in.ID)] = true
+			}
+			var buf bytes.Buffer
+			e := types.NewEncoder(&buf)
+			types.SpecifierFoundation.EncodeTo(e)
+			types.FoundationAddressUpdate{NewPrimary: newAddr, NewFailsafe: newAddr}.EncodeTo(e)
+			e.Flush()
+			txn := types.Transaction{
+				SiacoinInputs:  []types.SiacoinInput{{ParentID: in.ID, UnlockConditions: uc}},
+				SiacoinOutputs: outs,
+				MinerFees:      []types.Currency{fee},
+				ArbitraryData:  [][]byte{buf.Bytes()},
+			}
+			b.signV1Mixed(&txn, others)
+			return b.addV1(kind, txn)
+		} else if b.v2Allowed() {
+			txn := types.V2Transaction{SiacoinInputs: []types.V2SiacoinInput{{Parent: in.Copy()}}, SiacoinOutputs: outs, MinerFee: fee, NewFoundationAddress: &newAddr}
+			b.signV2Mixed(&txn)
+			return b.addV2(kind, txn)
+		}
+		return false
 	case "w-v2-renew-final":
 		if !b.v2Allowed() {
 			return false
@@ -409,6 +455,11 @@ func GenW2(r *rng.R, env *Env, o GenOpts) *Tree {
 				}
 			}
 		} else {
+			// on a network with a short subsidy period (SubsidyPeriod): a foundation address update
+			// confirmed in the very block that pays a subsidy
+			if p := SubsidyPeriod(env); p <= 12 && b.IsSubsidyHeight(b.height()+1) && r.Chance(2, 3) {
+				b.AddTxW(r, "w-foundation-update")
+			}
 			for i := 0; i < o.TxPerBlock; i++ {
 				b.AddTxW(r, kinds[r.Intn(len(kinds))])
 			}
@@ -430,4 +481,25 @@ func GenW2(r *rng.R, env *Env, o GenOpts) *Tree {
 		t.AddOnInvalid(r)
 	}
 	return t
+}
+
+// SubsidyPeriod is the number of blocks between foundation subsidies (core: a twelfth of the
+// blocks of a year, which is network configuration through the block interval).
+func SubsidyPeriod(env *Env) uint64 {
+	return uint64(365*24*time.Hour/env.Net.BlockInterval) / 12
+}
+
+// ShortSubsidyPeriod configures a subsidy every 3 blocks (from the foundation hardfork height on) and
+// makes addr the foundation's primary and failsafe address. Call it before any block is built.
+func (e *Env) ShortSubsidyPeriod(addr types.Address) {
+	e.Net.BlockInterval = 365 * 24 * time.Hour / 36
+	e.Net.HardforkFoundation.PrimaryAddress = addr
+	e.Net.HardforkFoundation.FailsafeAddress = addr
+}
+
+// IsSubsidyHeight reports whether the block at height h pays a foundation subsidy (after the initial one).
+func (b *Builder) IsSubsidyHeight(h uint64) bool {
+	hf := b.Env.Net.HardforkFoundation.Height
+	p := SubsidyPeriod(b.Env)
+	return p > 0 && h > hf && (h-hf)%p == 0
 }
